@@ -117,6 +117,23 @@ def pmap(func, items, chunksize=1):
     return res
 
 
+def pimap(func, items):
+    """Ordered, STREAMING parallel map (results are consumed one by one, so the master
+    never holds all outputs at once)."""
+    items = list(items)
+    if env.NPROC <= 1 or len(items) <= 1:
+        for it in items:
+            tag, val = _call((func, it))
+            if tag == 'err':
+                raise HarnessError('worker failed:\n' + val)
+            yield val
+        return
+    for tag, val in pool().imap(_call, [(func, it) for it in items], 1):
+        if tag == 'err':
+            raise HarnessError('worker failed:\n' + val)
+        yield val
+
+
 def pmerge(func, items, into=None, chunksize=1):
     rep = into if into is not None else Report()
     for r in pmap(func, items, chunksize):
